@@ -19,6 +19,10 @@ OBLIGATIONS = [
     (P + "multipart_roundtrip", "body built from accepted header blocks and delimiter-free contents, any chunking -> exactly those parts in order"),
     (P + "encodeHeader_ok", "the header block Spec.encodeHeader writes for a well-formed part (any bytes but CR/LF in names) is accepted as a whole and read back as that part's name/filename/mime"),
     (P + "multipart_roundtrip_parts", "WFparts ps, fields within the limit, no CR in the boundary key -> run (any chunking of Spec.encode ps) = ready ps: names, file names, MIME types, contents, order"),
+    (P + "request_roundtrip", "end to end: Content-Type multipart/form-data; boundary=<token>, WFparts, any chunking -> the application gets exactly deliver ps (post() multimap and files() in order)"),
+    (P + "field_limit_respected", "accepted parts, then a form field larger than the field limit, then anything: 413 under every chunking"),
+    (P + "early_close_refused", "a complete well-formed body followed by anything, declared length greater than the body's: 400 under every chunking"),
+    (P + "refusal_codes", "a multipart body is only ever refused with 400 or 413 (last_file() failure path unreachable)"),
     (P + "limits_respected", "declared length over the multipart limit (multipart) / content limit (other) -> 413 before any byte is looked at, whatever the bytes"),
     (P + "refused_not_partial", "a refused request delivers no field and no file"),
     (P + "raw_filter_sees_each_byte_once", "raw content filter: concatenation of the chunks it is given = the first content_length bytes, each once, in order; completes exactly at content_length"),
